@@ -221,7 +221,8 @@ def _check_main(ctx, res) -> None:
         raise AnalysisError(f"string patterns not foldable: {e}")
     # the walker must use exactly these two (consume_string)
     cs = src.methods.get("consume_string")
-    used = {call_name(c) for c in calls_in(cs.node)} if cs else set()
+    from .common import with_private_helpers
+    used = {call_name(c) for g in with_private_helpers(idx, cs) for c in calls_in(g.node)} if cs else set()  # the pattern may be built in a private helper
     if not {"get_string_pattern", "get_formatted_string_pattern"} <= used:
         raise AnalysisError("anchor=_Source.consume_string no longer builds its pattern from get_string_pattern/get_formatted_string_pattern")
     both = rca.build(f"(?:{sp})|(?:{fp})", erase_assertions=True)
